@@ -3261,12 +3261,45 @@ def _stat_matches_entry(
     return True
 
 
+def _mode_changed(
+    st_mode: int,
+    entry_mode: int,
+    honor_filemode: bool,
+    honor_symlinks: bool,
+) -> bool:
+    """Check whether a work tree file's type or executable bit differs from an index entry.
+
+    Git compares the mode together with the cached stat data, so a file that
+    became executable, or a file replaced by a symbolic link (or the reverse),
+    is modified even when its content hashes to the same blob.
+
+    Args:
+      st_mode: ``st_mode`` of the file in the work tree
+      entry_mode: Mode recorded in the index entry
+      honor_filemode: Whether the executable bit is meaningful (``core.filemode``)
+      honor_symlinks: Whether symbolic links are checked out as links
+        (``core.symlinks``); if not, a regular file stands in for a link
+    Returns: True if the mode counts as changed
+    """
+    fs_mode = cleanup_mode(st_mode)
+    index_mode = cleanup_mode(entry_mode)
+    if fs_mode == index_mode:
+        return False
+    if stat.S_IFMT(fs_mode) != stat.S_IFMT(index_mode):
+        if not honor_symlinks and stat.S_ISLNK(index_mode) and stat.S_ISREG(fs_mode):
+            return False
+        return True
+    return honor_filemode
+
+
 def _check_entry_for_changes(
     tree_path: bytes,
     entry: IndexEntry | ConflictedIndexEntry,
     root_path: bytes,
     filter_blob_callback: Callable[[Blob, bytes], Blob] | None = None,
     trust_ctime: bool = True,
+    honor_filemode: bool = False,
+    honor_symlinks: bool = True,
 ) -> bytes | None:
     """Check a single index entry for changes.
 
@@ -3276,6 +3309,10 @@ def _check_entry_for_changes(
       root_path: Root filesystem path
       filter_blob_callback: Optional callback to filter blobs
       trust_ctime: If True, use ctime for change detection (default: True)
+      honor_filemode: If True, a changed executable bit is a change. Defaults
+        to False, the historical behaviour; porcelain passes ``core.filemode``.
+      honor_symlinks: If True, a symbolic link replaced by a regular file is a
+        change (default: True)
     Returns: tree_path if changed, None otherwise
     """
     if isinstance(entry, ConflictedIndexEntry):
@@ -3292,6 +3329,12 @@ def _check_entry_for_changes(
 
         if not stat.S_ISREG(st.st_mode) and not stat.S_ISLNK(st.st_mode):
             return None
+
+        # A change of type or of the executable bit is a change even when the
+        # content (or the link target) still hashes to the recorded blob. Like
+        # git, look at the mode before trusting the cached stat data.
+        if _mode_changed(st.st_mode, entry.mode, honor_filemode, honor_symlinks):
+            return tree_path
 
         # Optimization: If stat matches index entry (mtime and size unchanged),
         # we can skip reading and filtering the file entirely. This is a significant
@@ -3324,6 +3367,8 @@ def get_unstaged_changes(
     preload_index: bool = False,
     trust_ctime: bool = True,
     max_stat: int | None = None,
+    honor_filemode: bool = False,
+    honor_symlinks: bool = True,
 ) -> Generator[bytes, None, None]:
     """Walk through an index and check for differences against working tree.
 
@@ -3335,6 +3380,11 @@ def get_unstaged_changes(
       trust_ctime: If True, use ctime for change detection (default: True)
       max_stat: If set, limit the number of stat operations performed.
         When the limit is reached, remaining files are assumed unchanged.
+      honor_filemode: If True, a changed executable bit counts as a change.
+        Defaults to False, the historical behaviour; callers that know the
+        repository configuration pass ``core.filemode``.
+      honor_symlinks: If True, a symbolic link replaced by a regular file
+        counts as a change (``core.symlinks``, default: True)
     Returns: iterator over paths with unstaged changes
     """
     # For each entry in the index check the sha1 & ensure not staged
@@ -3373,6 +3423,8 @@ def get_unstaged_changes(
                         root_path,
                         filter_blob_callback,
                         trust_ctime,
+                        honor_filemode,
+                        honor_symlinks,
                     )
                     for tree_path, entry in entries
                 ]
@@ -3389,7 +3441,13 @@ def get_unstaged_changes(
             if max_stat is not None and stat_count >= max_stat:
                 return
             result = _check_entry_for_changes(
-                tree_path, entry, root_path, filter_blob_callback, trust_ctime
+                tree_path,
+                entry,
+                root_path,
+                filter_blob_callback,
+                trust_ctime,
+                honor_filemode,
+                honor_symlinks,
             )
             stat_count += 1
             if result is not None:
